@@ -298,3 +298,19 @@ func (sc *vScenario) vUsePaySummary() {
 		}
 	}
 }
+
+// vIsResting: states in which a machine waits for an external stimulus (its action returned NoOp, or a
+// retry loop gave up, or it is terminal).  In every other state the machine holds its mutex while the
+// action runs, so the only stimulus that can find a swap there is a restart after a crash.  (A failing
+// store write can also leave a machine in an action state; that is outside the stated bound.)
+func vIsResting(st StateType) bool {
+	switch st {
+	case State_SwapOutSender_AwaitAgreement, State_SwapOutSender_AwaitTxBroadcastedMessage, State_SwapOutSender_AwaitTxConfirmation,
+		State_SwapOutSender_ClaimSwap, State_SwapInReceiver_AwaitTxBroadcastedMessage, State_SwapInReceiver_AwaitTxConfirmation,
+		State_SwapInReceiver_ClaimSwap, State_SwapInSender_AwaitAgreement, State_SwapInSender_AwaitClaimPayment,
+		State_SwapInSender_ClaimSwapCsv, State_SwapOutReceiver_AwaitFeeInvoicePayment, State_SwapOutReceiver_AwaitClaimInvoicePayment,
+		State_SwapOutReceiver_ClaimSwapCsv, State_WaitCsv:
+		return true
+	}
+	return vIsTerminal(st)
+}
